@@ -226,7 +226,9 @@ class PythonParserGenerator(IndentPrintMixin, NodeWalker):
                     exp: g.Model = opt
                     if isinstance(exp, g.Option):
                         exp = exp.exp
-                    self._gen_anon_block(exp, ctx=self.ctx, decor=f'{var}.option')
+                    self._gen_anon_block(
+                        exp, ctx=self.ctx, decor=f'{var}.option', defines=True
+                    )
         finally:
             # self.pop_ctx()
             self.prev_choice_number()
@@ -235,7 +237,7 @@ class PythonParserGenerator(IndentPrintMixin, NodeWalker):
         pass  # handled by walk_Choice
 
     def walk_Optional(self, optional: g.Optional):
-        self._gen_decor(Ctx.optional, exp=optional.exp)
+        self._gen_decor(Ctx.optional, exp=optional.exp, defines=True)
 
     def walk_EmptyClosure(self, _closure: g.EmptyClosure):
         self.print(f'{self.ctx}.empty()')
@@ -431,6 +433,11 @@ class PythonParserGenerator(IndentPrintMixin, NodeWalker):
                 self.print(f'[{ldefs_str}],')
             self.print(')')
 
+    def _gen_scope_defines(self, exp: g.Model):
+        # NOTE options and optionals define their names like the model does
+        if not isinstance(exp, g.Sequence):
+            self._gen_defines_declaration(exp)
+
     def _gen_block(self, exp: g.Model, name='block'):
         if () in exp.lookaheadlist:
             raise CodegenError(
@@ -451,6 +458,7 @@ class PythonParserGenerator(IndentPrintMixin, NodeWalker):
         decor: str = '',
         echeck: bool = False,
         ctx: str | None = None,
+        defines: bool = False,
     ):
         ctx = ctx or self.ctx
         if echeck and () in exp.lookaheadlist:
@@ -465,6 +473,8 @@ class PythonParserGenerator(IndentPrintMixin, NodeWalker):
         else:
             self.print(f'def {ANON}() -> Any:')
         with self.indent():
+            if defines:
+                self._gen_scope_defines(exp)
             self.walk(exp)
 
     def _gen_decor(
@@ -478,6 +488,7 @@ class PythonParserGenerator(IndentPrintMixin, NodeWalker):
         arg: str = '',
         ctx: str | None = None,
         echeck: bool = True,
+        defines: bool = False,
     ):
         assert isinstance(mgr, types.FunctionType)
         name = mgr.__name__
@@ -496,4 +507,6 @@ class PythonParserGenerator(IndentPrintMixin, NodeWalker):
             if exp and var:
                 self._gen_anon_block(exp, decor=f'{var}.exp', ctx=ctx, echeck=echeck)
             elif exp:
+                if defines:
+                    self._gen_scope_defines(exp)
                 self.walk(exp)
